@@ -202,7 +202,7 @@ struct C05 : Scenario {
             Fault f; p["crash"] = f.to_json(); p["drops"] = Json::object();
             return p;
         }
-        GenOpts o; o.family_snippets = true; o.late_edits = true; o.wecon_full = true; o.udq_unary_minus = true; o.max_steps = tier == "thorough" ? 9 : 6; o.max_actions = 2; o.max_udq = 2; o.restart_safe_conditions = true; o.nested_parens = false; o.stop_safe = true; o.date_conditions = (run % 3 == 0);
+        GenOpts o; o.family_snippets = true; o.late_edits = true; o.wecon_full = true; o.gconinje = true; o.udq_unary_minus = true; o.max_steps = tier == "thorough" ? 9 : 6; o.max_actions = 2; o.max_udq = 2; o.restart_safe_conditions = true; o.nested_parens = false; o.stop_safe = true; o.date_conditions = (run % 3 == 0);
         p["model_seed"] = static_cast<long long>(rng.next() >> 8);
         p["gen"] = o.to_json();
         p["physics_seed"] = static_cast<long long>(rng.next() >> 16);
